@@ -43,13 +43,19 @@ inductive Args where
   | simd (backend ty op seed : String)
   | simdlen (backend ty op len seed : String)
 
-/-- `chacha new` / `seek u64` / `applypat` on a fresh cipher -/
+/-- `chacha new` / `seek u64` / `applypat` on a fresh cipher; when that succeeded, a SECOND request of
+    77 bytes (pattern `seed + 1`, ordinary heap buffer on the Rust side) on the same object, appended after
+    `|`: a slice of any length and placement must also leave the object where the next call expects it -/
 def chachaRes (cfg : Cfg) (variant key nonce pos len seed : String) : String :=
   let (s1, r1) := CC.Drv.ChaCha.step cfg {} ["chacha", "new", "0", variant, key, nonce]
   if r1 != "ok" then r1 else
   let (s2, r2) := CC.Drv.ChaCha.step cfg s1 ["chacha", "seek", "0", "u64", pos]
   if r2 != "ok" then r2 else
-  (CC.Drv.ChaCha.step cfg s2 ["chacha", "applypat", "0", len, seed]).2
+  let (s3, r3) := CC.Drv.ChaCha.step cfg s2 ["chacha", "applypat", "0", len, seed]
+  if r3 = "err" ∨ r3 = "panic" ∨ r3 = "bad-op" then r3 else
+  match seed.toNat? with
+  | none => "bad-op"
+  | some sd => r3 ++ "|" ++ (CC.Drv.ChaCha.step cfg s3 ["chacha", "applypat", "0", "77", toString (sd + 1)]).2
 
 /-- `<family> new` / `updpat` / `fin` on a fresh hasher -/
 def hashRes (cfg : Cfg) (family variant len seed : String) : String :=
